@@ -206,7 +206,12 @@ fn build(c: &Case, values: &[Vec<u8>]) -> std::io::Result<Vec<u8>> {
                     Ok(h) => h,
                     Err(_) => return Ok(first), // judged below: the built header must parse
                 };
-                Builder::with_addresses(received.version | received.command, received.protocol, received.addresses).write_payloads(received.tlvs().filter_map(Result::ok))?.build()
+                if c.tlvs.len() % 2 == 0 {
+                    // the received TLV section handed on as it is (the iterator is a payload of its own)
+                    Builder::with_addresses(received.version | received.command, received.protocol, received.addresses).write_payload(received.tlvs())?.build()
+                } else {
+                    Builder::with_addresses(received.version | received.command, received.protocol, received.addresses).write_payloads(received.tlvs().filter_map(Result::ok))?.build()
+                }
             } else {
                 with_addr(c, Version::Two | cmd, proto, addr).write_payloads(items.into_iter().filter(|_| true))?.build()
             }
@@ -214,6 +219,9 @@ fn build(c: &Case, values: &[Vec<u8>]) -> std::io::Result<Vec<u8>> {
         9 => {
             // capacity hinted before every single TLV (its own size), after the first write as well
             let mut b = with_addr(c, Version::Two | cmd, proto, addr);
+            // the size of the whole TLV section hinted up front - twice, as two layers of a caller may do - then each TLV's own
+            let total: usize = values.iter().map(|v| 3 + v.len()).sum();
+            b = b.reserve_capacity(total).reserve_capacity(total);
             for (t, v) in c.tlvs.iter().zip(values) {
                 b = b.reserve_capacity(3 + v.len());
                 b = match t.named {
@@ -468,7 +476,7 @@ pub fn run(r: &mut Runner) -> &'static str {
                 return None;
             }
             for (named, kind) in &kinds {
-                for seed in [len as u32 * 2 + 1, 0, crate::engine::SEED_ONES, crate::engine::SEED_ASCII, crate::engine::SEED_CRLF, crate::engine::SEED_COUNTED] {
+                for seed in [len as u32 * 2 + 1, 0, crate::engine::SEED_ONES, crate::engine::SEED_ASCII, crate::engine::SEED_CRLF, crate::engine::SEED_COUNTED, crate::engine::SEED_FQDN, crate::engine::SEED_HTTP] {
                     idx += 1;
                     if idx % nshards != shard {
                         continue;
@@ -486,7 +494,7 @@ pub fn run(r: &mut Runner) -> &'static str {
         }
         None
     };
-    let gspace = format!("12 registered types + 10 raw kind bytes x every value length 0..={} x 6 content classes (random, zeros, 0xFF, ASCII, signature-like, counted string); family, command, transport and build route rotate", top);
+    let gspace = format!("12 registered types + 10 raw kind bytes x every value length 0..={} x 8 content classes (random, zeros, 0xFF, ASCII, signature-like, counted string, host name with root dot, HTTP text with CRLF pairs); family, command, transport and build route rotate", top);
     r.bulk("c07.grid", Some(&gspace), &grid, &judge);
     "exploration"
 }
